@@ -619,6 +619,12 @@ class SamplingMethod(DirectMethod):
         self.set_initial(stage, opti, declared) # Redo this: ocp.t is correct only now
 
 
+    def check_refine(self, stage):
+        # only SplineMethod imposes path constraints at refined grid points
+        for c, meta, args in stage._constraints["control"]:
+            if args.get("refine", 1)!=1 or args.get("group_refine", False):
+                raise Exception("subject_to(..., refine=/group_refine=) is only supported by SplineMethod")
+
     def add_constraints_before(self, stage, opti):
         for c, meta, args in stage._constraints["point"]:
             e = self.eval(stage, c)
